@@ -94,4 +94,129 @@ theorem C02_zod_alias_for_every_schema (cfg : Config) (s : SInfo) :
   unfold zodStructDecl
   split <;> simp [zodEnumDecl, zodObjectDecl]
 
+
+/-! ## closedness: every project type referred to is declared (corollaries of the C07 closure theorems) -/
+open TG.C07 V L
+
+/-- hypothesis of the statement of C02: every named type that is not mapped is a discovered serde type -/
+def AllDefined (cfg : Config) (a : Analysis) : Prop :=
+  (∀ n ∈ seeds a, lookup cfg.mappings n = none → (findStruct a.structs n).isSome = true) ∧
+  (∀ s ∈ a.structs, ∀ n ∈ refsOfS s, lookup cfg.mappings n = none → (findStruct a.structs n).isSome = true)
+
+theorem mem_refsOf {cfg : Config} {t : TS} {r : Str} (h : r ∈ refsOf cfg t) : r ∈ customs t ∧ lookup cfg.mappings r = none := by
+  unfold refsOf at h
+  have := List.mem_filter.mp h
+  exact ⟨this.1, by simpa using this.2⟩
+
+/-- **C02 (plain mode), parameter declarations are closed**: every project type a `…Params` interface refers to is
+    declared in `types.ts` -/
+theorem C02_params_refs_declared (cfg : Config) (a : Analysis) (hd : AllDefined cfg a) (c : CInfo) (hc : c ∈ a.commands)
+    (d : Decl) (h : tsParamsDecl cfg c = some d) : ∀ r ∈ d.refs, r ∈ usedNames a := by
+  intro r hr
+  unfold tsParamsDecl at h
+  split at h
+  · exact absurd h (by simp)
+  · simp only [Option.some.injEq] at h
+    subst h
+    simp only at hr
+    have hr' := List.mem_eraseDups.mp hr
+    have hseed : r ∈ seeds a ∧ lookup cfg.mappings r = none := by
+      rcases List.mem_append.mp hr' with h1 | h1
+      · obtain ⟨p, hp, hrp⟩ := List.mem_flatMap.mp h1
+        have := mem_refsOf hrp
+        refine ⟨?_, this.2⟩
+        unfold seeds
+        apply List.mem_append_left
+        apply List.mem_flatMap.mpr
+        exact ⟨c, hc, List.mem_append_left _ (List.mem_append_left _ (List.mem_flatMap.mpr ⟨p, hp, this.1⟩))⟩
+      · unfold channelRefs at h1
+        obtain ⟨ch, hch, hrc⟩ := List.mem_flatMap.mp h1
+        have := mem_refsOf hrc
+        refine ⟨?_, this.2⟩
+        unfold seeds
+        apply List.mem_append_left
+        apply List.mem_flatMap.mpr
+        exact ⟨c, hc, List.mem_append_right _ (List.mem_flatMap.mpr ⟨ch, hch, this.1⟩)⟩
+    exact C07_seeds_declared a r hseed.1 (hd.1 r hseed.1 hseed.2)
+
+/-- return types: every `types.X` a wrapper refers to is declared -/
+theorem C02_return_refs_declared (cfg : Config) (a : Analysis) (hd : AllDefined cfg a) (c : CInfo) (hc : c ∈ a.commands) :
+    ∀ r ∈ (tsCommandDecl cfg c).refs, r ∈ usedNames a := by
+  intro r hr
+  have := mem_refsOf (cfg := cfg) hr
+  have hseed : r ∈ seeds a := by
+    unfold seeds
+    apply List.mem_append_left
+    apply List.mem_flatMap.mpr
+    exact ⟨c, hc, List.mem_append_left _ (List.mem_append_right _ this.1)⟩
+  exact C07_seeds_declared a r hseed (hd.1 r hseed this.2)
+
+/-- event payloads -/
+theorem C02_event_refs_declared (cfg : Config) (a : Analysis) (hd : AllDefined cfg a) (e : EInfo) (he : e ∈ a.events) :
+    ∀ r ∈ (eventDecl cfg e).refs, r ∈ usedNames a := by
+  intro r hr
+  have := mem_refsOf (cfg := cfg) hr
+  have hseed : r ∈ seeds a := by
+    unfold seeds
+    apply List.mem_append_right
+    exact List.mem_flatMap.mpr ⟨e, he, this.1⟩
+  exact C07_seeds_declared a r hseed (hd.1 r hseed this.2)
+
+/-- **C02 (plain mode), struct declarations are closed**: every project type a declared interface refers to in a field
+    is itself declared -/
+theorem C02_struct_refs_declared (cfg : Config) (a : Analysis) (hd : AllDefined cfg a) (s : SInfo)
+    (hs : s ∈ structsSortedByName a) : ∀ r ∈ (tsStructDecl cfg s).refs, r ∈ usedNames a := by
+  intro r hr
+  -- s is the struct found under a used name
+  unfold structsSortedByName at hs
+  have hs' := (sortBy_perm (fun (s : SInfo) => s.name) _).mem_iff.mp hs
+  obtain ⟨n, hn, hfind⟩ := List.mem_filterMap.mp hs'
+  have hmem : s ∈ a.structs := List.mem_of_find?_eq_some hfind
+  unfold tsStructDecl at hr
+  split at hr
+  · simp at hr
+  · simp only at hr
+    have hr' := List.mem_eraseDups.mp hr
+    obtain ⟨f, hf, hrf⟩ := List.mem_flatMap.mp hr'
+    have := mem_refsOf hrf
+    have hin : r ∈ refsOfS s := List.mem_flatMap.mpr ⟨f, hf, this.1⟩
+    have hreach : Reach a.structs (seeds a) r := Reach.field s (C07_declared_reachable a n hn) hfind hin
+    exact C07_reachable_declared a r hreach (hd.2 s hmem r hin this.2)
+
+/-- **C02 (Zod mode)**: every `XSchema` constant an object schema mentions belongs to a declared struct -/
+theorem C02_zod_struct_schema_refs (cfg : Config) (a : Analysis) (hd : AllDefined cfg a) (s : SInfo) (n : Str)
+    (hn : n ∈ usedNames a) (hfind : findStruct a.structs n = some s) :
+    ∀ r ∈ (s.fields.flatMap fun f => schemaRefs cfg (tsOfStr f.rustType)), ∃ m ∈ usedNames a, r = m ++ cl!"Schema" := by
+  intro r hr
+  obtain ⟨f, hf, hrf⟩ := List.mem_flatMap.mp hr
+  unfold schemaRefs at hrf
+  obtain ⟨m, hm, rfl⟩ := List.mem_map.mp hrf
+  have := mem_refsOf hm
+  have hin : m ∈ refsOfS s := List.mem_flatMap.mpr ⟨f, hf, this.1⟩
+  have hmem : s ∈ a.structs := List.mem_of_find?_eq_some hfind
+  have hreach : Reach a.structs (seeds a) m := Reach.field s (C07_declared_reachable a n hn) hfind hin
+  exact ⟨m, C07_reachable_declared a m hreach (hd.2 s hmem m hin this.2), rfl⟩
+
+/-- … and every `XSchema` a parameter schema mentions -/
+theorem C02_zod_param_schema_refs (cfg : Config) (a : Analysis) (hd : AllDefined cfg a) (c : CInfo) (hc : c ∈ a.commands)
+    (d : Decl) (h : zodParamSchema cfg c = some d) : ∀ r ∈ d.refs, ∃ m ∈ usedNames a, r = m ++ cl!"Schema" := by
+  intro r hr
+  unfold zodParamSchema at h
+  split at h
+  · exact absurd h (by simp)
+  · simp only [Option.some.injEq] at h
+    subst h
+    simp only at hr
+    obtain ⟨p, hp, hrp⟩ := List.mem_flatMap.mp (List.mem_eraseDups.mp hr)
+    unfold schemaRefs at hrp
+    obtain ⟨m, hm, rfl⟩ := List.mem_map.mp hrp
+    have := mem_refsOf hm
+    have hseed : m ∈ seeds a := by
+      unfold seeds
+      apply List.mem_append_left
+      apply List.mem_flatMap.mpr
+      exact ⟨c, hc, List.mem_append_left _ (List.mem_append_left _ (List.mem_flatMap.mpr ⟨p, hp, this.1⟩))⟩
+    exact ⟨m, C07_seeds_declared a m hseed (hd.1 m hseed this.2), rfl⟩
+
+
 end TG.C02
